@@ -1,7 +1,9 @@
 /-
 C01 — XML save/load is lossless and conforms to odML format 1.1.
 
-Property theorems only; helper lemmas are in `Proofs/Csv.lean`, `Proofs/Xml.lean`.
+Property theorems only; helper lemmas are in `Proofs/Csv.lean`, `Proofs/Xml.lean`,
+`Proofs/XmlRound.lean`, `XmlRoundVal.lean`, `XmlRoundProp.lean`, `XmlRoundTree.lean`,
+`XmlRoundDenote.lean` (which also holds the definition of `denote`), `XmlRoundWritten.lean`.
 Models: `Py/Csv.lean`, `Model/XmlCsv.lean`, `Model/XmlDoc.lean`, `Model/Xml.lean`,
 `Model/XmlRepr.lean` (tied to /repo by `harness/c01.py`).
 -/
@@ -10,6 +12,9 @@ import OdmlModel.Model.XmlRepr
 import OdmlModel.Proofs.Csv
 import OdmlModel.Proofs.Xml
 import OdmlModel.Props.C09
+import OdmlModel.Proofs.XmlRoundTree
+import OdmlModel.Proofs.XmlRoundDenote
+import OdmlModel.Proofs.XmlRoundWritten
 
 set_option linter.unusedSimpArgs false
 
@@ -298,6 +303,118 @@ theorem name_clash_counterexample :
     view (readXml .lenient idLib (writeTree (docWith [secWith u2 "a" [], secWith u3 "a " []]))) =
       .ok [⟨some "a".toList, []⟩] := by decide
 
+/-! ## 5. The whole document: save, then load, gives the trimmed document back
+
+The statement of the property: for every document the public API can build (`wfDoc`) that is
+representable in odML-XML as the code stands (`xmlRepr`, i.e. outside the four open findings
+above), reading what the writer wrote returns the document itself up to the trimming of
+surrounding white space, without a single warning — for documents of any size and any depth.
+
+`docLower d` (every stored dtype is in lower case) is a third, decidable well-formedness
+condition that `wfDoc` does not state: `Property.dtype` only ever holds lower-case names (the
+constructor and the setter normalise, replayed on /repo), so no document built through the API
+violates it, but the model universe `DocT` contains such documents and on them the statement is
+false of the model (`dtype_case_counterexample`).  It is named in the statements below. -/
+
+/-- **One Property element** (step 1 of the whole-document theorem): `parse_tag` on the element
+    `save_element` emitted for a well-formed, representable Property returns the trimmed
+    Property; the warning count `w` is unchanged (no unknown element, nothing given twice, the
+    mandatory `name` present, the constructor accepts the arguments).  Any number of values,
+    every dtype incl. n-tuples; either reader mode. -/
+theorem prop_xml_roundtrip (m : Mode) (lib : TokLib) (tag : String) (p : PropT) (w : Nat)
+    (hwf : propWf lib p = true) (hrepr : propRepr p = true) (hlow : propLower p = true) :
+    readTag m lib .prop tag (writeProp p) w = .ok (.prop (trimProp p), w) :=
+  prop_roundtrip m lib tag p w hwf hrepr hlow
+
+/-- **One Section with everything below it** (step 2: mutual structural induction over the
+    Section tree; `SmartList.append` never refuses a child because sibling names are distinct
+    after trimming). -/
+theorem sec_xml_roundtrip (m : Mode) (lib : TokLib) (tag : String) (s : SecT) (w : Nat)
+    (hwf : secWf lib s = true) (hrepr : secRepr s = true) (hlow : secLower s = true) :
+    readTag m lib .sec tag (writeSec s) w = .ok (.sec (trimSec s), w) :=
+  sec_round m lib s hwf hrepr hlow tag w
+
+/-- **C01, whole document, strict reader**: `XMLReader(ignore_errors=False)` applied to the
+    tree `XMLWriter` built returns `trimDoc d` and no warning — any number of Sections and
+    Properties, any nesting depth, any number of values.  The proof folds the per-key steps over
+    the regenerated key tables in whatever order they list the keys. -/
+theorem xml_roundtrip (lib : TokLib) (d : DocT) (hwf : wfDoc lib d = true)
+    (hrepr : xmlRepr d = true) (hlow : docLower d = true) :
+    readXml .strict lib (writeTree d) = .ok (trimDoc d, 0) :=
+  doc_round .strict lib d hwf hrepr hlow
+
+/-- The same for the lenient reader (`ignore_errors=True`): same document, no warning. -/
+theorem xml_roundtrip_lenient (lib : TokLib) (d : DocT) (hwf : wfDoc lib d = true)
+    (hrepr : xmlRepr d = true) (hlow : docLower d = true) :
+    readXml .lenient lib (writeTree d) = .ok (trimDoc d, 0) :=
+  doc_round .lenient lib d hwf hrepr hlow
+
+/-- … and through `writeXml` (the writer does not raise on such a document unless a text is not
+    XML compatible, in which case nothing is written, `xml_unrepresentable_chars`). -/
+theorem xml_save_load (m : Mode) (lib : TokLib) (d : DocT) (x : X) (hwf : wfDoc lib d = true)
+    (hrepr : xmlRepr d = true) (hlow : docLower d = true) (hx : writeXml d = .ok x) :
+    readXml m lib x = .ok (trimDoc d, 0) := by
+  have : x = writeTree d := by
+    simp only [writeXml] at hx
+    split at hx
+    · cases hx; rfl
+    · cases hx
+  rw [this]
+  exact doc_round m lib d hwf hrepr hlow
+
+def pCase : PropT :=
+  { defaultProp with id := some u3, name := some "p".toList, dtype := some "String".toList }
+
+/-- Why `docLower` is in the statements: a `DocT` whose Property carries the dtype `String`
+    satisfies `wfDoc` and `xmlRepr`, and the reader stores `string`.  (Not a defect of the code:
+    `odml.Property(dtype="String").dtype == "string"`, so the public API cannot build it.) -/
+theorem dtype_case_counterexample :
+    wfDoc idLib (docWith [secWith u2 "s" [pCase]]) = true ∧
+    xmlRepr (docWith [secWith u2 "s" [pCase]]) = true ∧
+    docLower (docWith [secWith u2 "s" [pCase]]) = false ∧
+    view (readXml .strict idLib (writeTree (docWith [secWith u2 "s" [pCase]]))) =
+      .ok [⟨some "s".toList, [⟨some "p".toList, some "string".toList, [], none⟩]⟩] := by decide
+
+/-! ## 6. Conformant XML written by another tool
+
+`Xml.denote lib x` (defined in `Proofs/XmlRoundDenote.lean`) is the document a tree describes by
+look-up, without the reader's loops and state: root `odML` with the format version, no other
+attributes; every element a key of its class (tags in any letter case, elements in any order);
+no argument given twice; mandatory arguments present; the leaf texts are the constructor
+arguments (`<value>` through `from_csv`, cardinalities through `parse_cardinality`); child
+elements are the sub-Sections / Properties in document order; names that `append` accepts.
+It is `none` for a tree that is not conformant. -/
+
+/-- **`xml_denote`**: on a conformant tree the reader — strict or lenient — returns exactly the
+    document the tree denotes and not a single warning, for trees of any size and depth. -/
+theorem xml_denote (lib : TokLib) (m : Mode) (x : X) (d : DocT) (h : denote lib x = some d) :
+    readXml m lib x = .ok (d, 0) :=
+  doc_denote m lib x d h
+
+/-- … in particular the two reader modes agree on conformant trees. -/
+theorem xml_strict_lenient_agree (lib : TokLib) (x : X) (d : DocT) (h : denote lib x = some d) :
+    readXml .strict lib x = readXml .lenient lib x := by
+  rw [xml_denote lib .strict x d h, xml_denote lib .lenient x d h]
+
+/-- The same for a Section element and a Property element on their own. -/
+theorem xml_denote_sec (lib : TokLib) (m : Mode) (x : X) (s : SecT) (tag : String) (w : Nat)
+    (h : denoteSec lib x = some s) : readTag m lib .sec tag x w = .ok (.sec s, w) :=
+  sec_denote m lib x s h tag w
+
+theorem xml_denote_prop (lib : TokLib) (m : Mode) (x : X) (p : PropT) (tag : String) (w : Nat)
+    (h : denoteProp lib x = some p) : readTag m lib .prop tag x w = .ok (.prop p, w) :=
+  prop_denote m lib x p h tag w
+
+/-- **The writer's output conforms to odML 1.1 in the sense of `denote`**: the tree built for a
+    well-formed, representable document is in the domain of the denotation (known keys only,
+    each argument once, mandatory arguments present, texts their dtype / cardinality admits,
+    names that do not clash) and denotes the trimmed document — any size, any depth.
+    Together with `xml_denote` this gives `xml_roundtrip` a second time. -/
+theorem xml_write_denotes (lib : TokLib) (d : DocT) (hwf : wfDoc lib d = true)
+    (hrepr : xmlRepr d = true) (hlow : docLower d = true) :
+    denote lib (writeTree d) = some (trimDoc d) :=
+  write_denotes lib d hwf hrepr hlow
+
 /-! ## Non-vacuity: the hypotheses are met by concrete, non-trivial objects -/
 
 example : valOk idLib "string".toList (.str "a,\"b\n".toList) = true := by decide
@@ -308,5 +425,81 @@ example : xmlRepr (docWith [secWith u2 "s" [pUnc]]) = false := by decide
 example : xmlRepr (docWith [secWith u2 "s" [{ pUnc with uncertainty := none }]]) = true := by decide
 example : view (readXml .strict idLib (writeTree (docWith [secWith u2 "s" [{ pUnc with uncertainty := none }]]))) =
     .ok [⟨some "s".toList, [⟨some "p".toList, some "int".toList, [.int 1], none⟩]⟩] := by decide
+
+/-! ### a non-trivial document inside the hypotheses of `xml_roundtrip` -/
+
+def u4 : Str := "00000000-0000-0000-0000-000000000004".toList
+def u5 : Str := "00000000-0000-0000-0000-000000000005".toList
+def u6 : Str := "00000000-0000-0000-0000-000000000006".toList
+def u7 : Str := "0a1b2c3d-4e5f-6789-abcd-ef0123456789".toList
+
+def exStr : PropT :=
+  { defaultProp with id := some u5, name := some " words ".toList, dtype := some "string".toList,
+                     values := [.str "a,b".toList, .str " c\" ".toList, .str "[x]".toList],
+                     unit := some " mV ".toList, definition := some "".toList,
+                     uncertainty := some ⟨false, " +-12".toList⟩, valCard := some (some 1, some 5) }
+def exTup : PropT :=
+  { defaultProp with id := some u6, name := some "pairs".toList, dtype := some "2-tuple".toList,
+                     values := [.tuple ["1".toList, "2".toList], .tuple ["a\"b".toList, []]] }
+def exInt : PropT :=
+  { defaultProp with id := some u7, name := some "n".toList, dtype := some "int".toList,
+                     values := [.int (-12), .int 7], valCard := some (none, some 2) }
+def exInner : SecT :=
+  .mk (some u3) (some "inner".toList) (some "t".toList) none none none none none [] [exInt] none none
+def exA : SecT :=
+  .mk (some u2) (some "setup ".toList) (some "recording".toList) (some "d,e\"f".toList) none none
+    (some " http://x ".toList) none [exInner] [exStr, exTup] (some (some 1, none)) none
+def exB : SecT :=
+  .mk (some u4) (some "Setup".toList) (some "".toList) none none none none none [] [] none none
+def exDoc : DocT :=
+  { id := some u1, version := some " 1.0".toList, author := some "A. Author".toList,
+    date := some "2020-01-02".toList, repository := none, secs := [exA, exB] }
+
+example : wfDoc idLib exDoc = true ∧ xmlRepr exDoc = true ∧ docLower exDoc = true := by decide
+example : readXml .strict idLib (writeTree exDoc) = .ok (trimDoc exDoc, 0) :=
+  xml_roundtrip idLib exDoc (by decide) (by decide) (by decide)
+example : readXml .lenient idLib (writeTree exDoc) = .ok (trimDoc exDoc, 0) :=
+  xml_roundtrip_lenient idLib exDoc (by decide) (by decide) (by decide)
+
+/-! ### `denote` is defined on the written tree and on a tree another tool could have written -/
+
+example : denote idLib (writeTree exDoc) = some (trimDoc exDoc) :=
+  xml_write_denotes idLib exDoc (by decide) (by decide) (by decide)
+
+/-- elements in another order, tags in another letter case, no ids, a bracketed value list -/
+def foreignTree : X :=
+  .elem "odML" [("version", "1.1".toList)] none
+    [.elem "Section" [] none
+      [.elem "NAME" [] (some " s1 ".toList) [],
+       .elem "property" [] none
+         [.elem "value" [] (some "[1,-2,3]".toList) [],
+          .elem "Type" [] (some "int".toList) [],
+          .elem "name" [] (some "p".toList) [],
+          .elem "val_cardinality" [] (some "(1, None)".toList) []],
+       .elem "section" [] none
+         [.elem "type" [] (some "inner".toList) [], .elem "name" [] (some "sub".toList) []],
+       .elem "type" [] (some "t".toList) []],
+     .elem "author" [] (some "me".toList) []]
+
+def asRead (o : Option DocT) : Except RErr (DocT × Nat) :=
+  match o with
+  | some d => .ok (d, 0)
+  | none => .error .parser
+
+example : view (asRead (denote idLib foreignTree)) =
+    .ok [⟨some "s1".toList, [⟨some "p".toList, some "int".toList, [.int 1, .int (-2), .int 3], none⟩]⟩] := by
+  decide
+example : readXml .strict idLib foreignTree = asRead (denote idLib foreignTree) := by
+  cases h : denote idLib foreignTree with
+  | none => exact absurd h (by decide)
+  | some d => exact xml_denote idLib .strict foreignTree d h
+/-- not conformant: an element given twice, a foreign element, a missing mandatory `name` -/
+example : denote idLib (.elem "odML" [("version", "1.1".toList)] none
+    [.elem "author" [] (some "a".toList) [], .elem "author" [] (some "b".toList) []]) = none := by
+  decide
+example : denote idLib (.elem "odML" [("version", "1.1".toList)] none
+    [.elem "colour" [] (some "a".toList) []]) = none := by decide
+example : denote idLib (.elem "odML" [("version", "1.1".toList)] none
+    [.elem "section" [] none [.elem "type" [] (some "t".toList) []]]) = none := by decide
 
 end C01
